@@ -29,7 +29,7 @@ COMPONENTS = {"real": ["BoxPortfolio", "DiscretePortfolio", "PortfolioSpace.make
               "harness": ["malformed-action catalogue", "delivery model"], "stub": []}
 PROBE_FLOORS = {"malformed_nan": 11, "malformed_shape": 34, "malformed_bound_ulp": 12, "malformed_bad_index": 40,
                 "malformed_deep_in_queue_episode_ends_first": 10, "in_space_on_bound": 50, "list_action": 116, "float32_action": 125,
-                "cash_entry_ignored": 200, "discrete_nr_contracts_mode": 30, "frictionless_weights_checked": 200, "malformed_rejected_when_due": 177, "xy_allocation_checked": 500, "xy_delay_zero": 200, "xy_malformed_rejected": 30}
+                "cash_entry_ignored": 200, "discrete_nr_contracts_mode": 30, "frictionless_weights_checked": 200, "malformed_rejected_when_due": 177, "xy_allocation_checked": 500, "xy_delay_zero": 200, "xy_malformed_rejected": 30, "chain_action_resolved_by_model": 3000, "chain_with_month_offset": 1000}
 
 PROFILE = {
     "n_min": 3, "n_max": 10, "n_long": 20, "p_long": 0.05, "c_min": 1, "c_max": 3, "p_bar": 1.0, "extras_max": 4,
@@ -40,9 +40,26 @@ PROFILE = {
 }
 
 
+def generate_chain(rng, i):
+    """A futures-chain world (C11's generator: month offsets, rolls): the allocation an action denotes is the
+    contract the chain stands for at execution time."""
+    from tesim.props import c11
+    for _ in range(6):
+        sc = c11.generate(rng, i)
+        if not sc.get("construct_only"):
+            sc["chain_world"] = True
+            sc["frictionless"] = False
+            return sc
+    return None
+
+
 def generate(rng, i):
     if i % 10 == 9:
         return generate_xy(rng, i)
+    if i % 10 == 8:
+        sc = generate_chain(rng, i)
+        if sc is not None:
+            return sc
     env = gen_epi.gen_env(rng, PROFILE)
     sp = env["space"]
     frictionless = rng.random() < 0.4
@@ -291,6 +308,11 @@ def execute(scenario):
                 break
             reb = ex[0]["rebalancing"]
             want = denoted(h, acts[due]) if due >= 0 else epicheck.null_allocation(h)
+            if any(isinstance(key, tuple) for key in want):
+                want = epicheck.resolve_allocation(h, want, ex[0]["env_now"])
+                probe("chain_action_resolved_by_model")
+                if env_spec["contracts"][0].get("month", 0) > 0:
+                    probe("chain_with_month_offset")
             if reb["alloc"] != want:
                 violate("allocation_not_action", "step {}: executed allocation {} but the due action {} denotes {}".format(
                     k, reb["alloc"], acts[due] if due >= 0 else "<null>", want), op=k, space=sp["type"], cash=bool(sp.get("with_cash")))
